@@ -347,7 +347,10 @@ def run_harness(name, th, tier, use_memo=True):
 
 def extract_values(work_out, prop, unwind, uws, default_checks, timeout=1800, mem_gb=16):
     """re-run CBMC for the single failing property with --trace --json-ui; return the kani::any() values"""
-    cmd = ["cbmc"] + kdrive.CBMC_BASE + (kdrive.CBMC_DEFAULT if default_checks else kdrive.CBMC_NO_DEFAULT)
+    # no --slice-formula here: slicing drops the nondet assignments outside the property's cone of influence from the
+    # trace, and the native replay needs *every* kani::any() value in execution order
+    base = [x for x in kdrive.CBMC_BASE if x != "--slice-formula"]
+    cmd = ["cbmc"] + base + (kdrive.CBMC_DEFAULT if default_checks else kdrive.CBMC_NO_DEFAULT)
     if unwind is not None:
         cmd += ["--unwind", str(unwind)]
     if uws:
